@@ -365,10 +365,10 @@ def _check_pair(cx, a, b, own, bown, conn, facts, tolerate_extra_on=()):
     return ok
 
 
-def _send(cx, a, b, side, count, size):
+def _send(cx, a, b, side, count, size, conns=None):
     sim, world = cx.sim, cx.world
-    key = (a, b) if (a, b) in cx.links else (b, a)
-    conns = cx.links[key]
+    key = (a, b) if ((a, b) in cx.links or conns is not None) else (b, a)
+    conns = conns if conns is not None else cx.links[key]
     src_node = key[side]
     dst_node = key[1 - side]
     src, dst = conns[side], conns[1 - side]
@@ -561,6 +561,9 @@ def gen_classic(rng, tier, seed):
                 continue
             ops.append(['connect2', a, b, c])
             links += [(a, b), (a, c)]
+        elif r < 0.48 and links:
+            # the same two devices additionally connect over LE (central with its public address): two links between one pair
+            ops.append(['dual', list(rng.choice(links)), rng.choice([1, 2]), rng.choice([0, 1, 40])])
         elif r < 0.75:
             if not links:
                 continue
@@ -583,6 +586,7 @@ def run_classic(case):
         world.power_on()
         cx = Ctx(sim, world, case)
         established = carried = 0
+        duals = {}
         for op in case['ops']:
             kind = op[0]
             if kind == 'connect':
@@ -613,6 +617,27 @@ def run_classic(case):
                     break
                 cx.links[(a, b)] = [conn, pev[0]]
                 established += 1
+            elif kind == 'dual':
+                _, (a, b), count, size = op
+                if (a, b) not in cx.links or (a, b) in duals:
+                    continue
+                try:
+                    le = list(world.connect_le(a, b, own_address_type=cx.hci.OwnAddressType.PUBLIC))
+                except HarnessError as e:
+                    sim.violation_once('dual', 'le-connect-failed:while-classic-link-up', str(e))
+                    break
+                duals[(a, b)] = le
+                sim.probe('le_and_classic_link_between_the_same_devices')
+                ok = True
+                for side in (0, 1):
+                    ok = ok and _send(cx, a, b, side, count, size, conns=le) and _send(cx, a, b, side, count, size)
+                if not ok:
+                    break
+                # drop the LE link again (the classic one stays)
+                sim.run(le[0].disconnect(), 30.0)
+                sim.loop.settle(vt_budget=1.0)
+                del duals[(a, b)]
+                carried += 1
             elif kind == 'connect2':
                 _, a, b, c = op
                 for ev in cx.conn_events:
